@@ -68,6 +68,8 @@ def enc_filter(f):
     t = f["t"]
     if t == "EdgeFilter":  # the harness' custom filters with choice tags around the tag-number encoding boundaries
         return ber.octets(_s(f["value"]), CONTEXT, int(f["n"]))
+    if t == "SubEquality":  # the harness' filter deriving from the built-in equality filter, choice id 1025
+        return ber.tlv(CONTEXT, True, 1025, ber.octets(_s(f["attribute"])) + ber.octets(_h(f["value"])))
     tag = FILTER_TAG[t]
     if t in ("And", "Or"):
         return ber.tlv(CONTEXT, True, tag, b"".join(enc_filter(x) for x in f["filters"]))
@@ -101,7 +103,7 @@ def enc_filter(f):
     raise ValueError("unknown filter kind %r" % t)
 
 
-EDGE_TAGS = (30, 31, 32, 127, 128)
+EDGE_TAGS = (30, 31, 32, 127, 128, 1280, 2048)
 
 
 def control_wire(c):
@@ -283,6 +285,28 @@ def light(buf, start=0, end=None):
         raise Malformed("protocolOp is not APPLICATION class")
     kind = TAG_OP.get(op.num)
     out = {"id": mid, "kind": kind, "tag": op.num, "code": None, "name": None}
+    # the paged-results control is a type the library knows and decodes (RFC 2696): a missing or malformed value makes the whole
+    # message invalid
+    for k in root.children[2:]:
+        if (k.cls, k.num, k.constructed) == (CONTEXT, 0, True):
+            _r2, _o2 = ber.parse_tree(buf, k.off, k.end, max_depth=3)
+            for ctl in (_r2.children if _r2 is not None else []):
+                kids = ctl.children
+                if kids and (kids[0].cls, kids[0].num) == (UNIVERSAL, 4) and bytes(buf[kids[0].off + kids[0].hl : kids[0].end]) == CONTROL_OID["Paged"].encode():
+                    vals = [c for c in kids[1:] if (c.cls, c.num, c.constructed) == (UNIVERSAL, 4, False)]
+                    ok = False
+                    if vals:
+                        v = bytes(buf[vals[-1].off + vals[-1].hl : vals[-1].end])
+                        try:
+                            r = _R(v, 0, len(v))
+                            sq = r.sub(UNIVERSAL, 16, "realSearchControlValue")
+                            sq.int_("size")
+                            sq.octs("cookie")
+                            ok = True
+                        except Malformed:
+                            ok = False
+                    if not ok:
+                        raise Malformed("paged-results control without a well-formed value")
     if kind in ("BindResponse", "SearchResultDone", "ExtendedResponse"):
         kids = op.children
         if kids and (kids[0].cls, kids[0].num) == (UNIVERSAL, 10):
